@@ -14,6 +14,22 @@ CHECKS = {
              'every recorded step (full table projection) is validated by TLC against the spec actions.',
         note='Trusted: TLC, the projection in verif/checks/c11.py, the bounded domain (3 objects, 2 key values + None).',
         design_ref='6/C11'),
+    'C02': dict(
+        technique='TLA+ spec Mdib.tla (operational transaction model) model-checked by TLC; TLC-simulated behaviours replayed on the real ProviderMdib; TLC trace validation against the abstract commit obligation (MdibTrace.tla)',
+        text='TLC exhaustively checks Gapless/EmptyNoBump/Monotone*/ChangeBumps*/RefConsistent on the operational model '
+             '(6 descriptors, 2 context states, <=3 transactions of <=2 calls); simulated behaviours over all transaction kinds '
+             'and both interfaces are executed on the real ProviderMdib and every commit is judged by TLC against the abstract '
+             'obligation (mver step, footprint-untouched, monotone incl. delete/re-create, bump-on-change, referential consistency).',
+        note='Trusted: TLC, projection/canonicalisation in verif/mdibharness.py (content tokens by canonical walk), fixture one_mds.xml; '
+             'API precondition: nothing is created below a descriptor deleted in the same transaction.',
+        design_ref='6/C02'),
+    'C03': dict(
+        technique='TLA+ spec Mdib.tla (Abort after every prefix, Rejected calls, MutateCopy) + TLC trace validation of recorded executions (MdibTrace.tla clauses atomic_*/isolated_*/published_unchanged)',
+        text='Same behaviours as C02; the MDIB projection is recorded after every API call, so TLC judges: unchanged while a '
+             'transaction is open (isolation at every nesting depth the token concretisation reaches), equal to the state at Begin '
+             'after Abort / failed commit, unchanged by mutation of getter/entity/result objects, earlier TransactionResults unchanged.',
+        note='Trusted: as C02. Commit failures only through inputs that make the real commit raise. Two known findings listed in known_findings.json.',
+        design_ref='6/C03'),
 }
 
 NOT_YET = 'check not built yet in this round (see DESIGN.md section 10 build order); no claim made'
